@@ -299,6 +299,9 @@ func PrintSchema(s *Schema) string {
 		b.WriteString(" on " + strings.Join(sorted(dd.Locs), " | ") + "\n")
 	}
 	for _, n := range s.Types.Keys() {
+		if strings.HasPrefix(n, "__") {
+			continue // the introspection types (4.2) are part of every schema; the library adds its own definitions
+		}
 		td := s.Types[n]
 		switch td.Kind {
 		case "SCALAR":
